@@ -319,6 +319,8 @@ def check(eng, res):
     res.doc("R-RESERVE-PAIR", "acquire/release pairing of the descriptor reserved for the right terminal; capping loop shape")
     res.doc("R-DO-WHILE", "at least one repeat unit: growth step dominates every loop exit")
     res.doc("R-HANDOVER-WEIGHT", "the descriptor appended for the hand-over to the next object has weight 0")
+    res.doc("R-TERMINAL-TRANSFER", "at a hand-over the left terminal's weight and list replace those of the incoming open descriptor (shared with C08)")
+    res.doc("R-EQUAL-RULE", "equal weights (incl. a lone zero weight) are made uniform before normalising (shared with C08)")
     res.doc("R-FULLY", "fully_generated == no open descriptor")
     elem_order(eng, res)
     n = handover_guard(eng, res)
@@ -332,6 +334,14 @@ def check(eng, res):
     c08.check_pools(eng, sub)
     for o in sub.obligations:
         if "finalize_mol" in o.role:
+            res.obligations.append(o)
+    # hand-over between consecutive objects: the left terminal's weight / list replaces whatever the open descriptor
+    # carried (a stale list would pick partners in the wrong object), and picks never fail on a lone zero weight
+    sub = type(res)(res.prop)
+    c08.check_terminal_transfer(eng, sub)
+    c08.check_chooser(eng, sub)
+    for o in sub.obligations:
+        if o.rule in ("R-TERMINAL-TRANSFER", "R-EQUAL-RULE"):
             res.obligations.append(o)
     res.floor("R-HANDOVER-GUARD", n, 2)
     reserve_pair(eng, res)
